@@ -8,6 +8,7 @@ import (
 	"fmt"
 	"io"
 	"log"
+	"net"
 	"os"
 	"reflect"
 	"strings"
@@ -35,14 +36,39 @@ var (
 	vErrExh   = errors.New("exhausted receive retries")
 )
 
+// vShape rotates the shape of the injected system call errors (reset at the
+// start of every scenario): bare *os.SyscallError values and, as the socket
+// layer reports them, *net.OpError around one; EPERM and EACCES both mean
+// "permission".
+var vShape int
+
+func vSysErr() error {
+	vShape++
+	switch vShape % 3 {
+	case 0:
+		return &net.OpError{Op: "read", Net: "ip6:ipv6-icmp", Err: os.NewSyscallError("recvmsg", syscall.ENOBUFS)}
+	case 1:
+		return &net.OpError{Op: "listen", Net: "ip6:ipv6-icmp", Err: os.NewSyscallError("bind", syscall.EADDRNOTAVAIL)}
+	}
+	return vErrSys
+}
+
+func vPermErr() error {
+	vShape++
+	if vShape%2 == 0 {
+		return &net.OpError{Op: "listen", Net: "ip6:ipv6-icmp", Err: os.NewSyscallError("socket", syscall.EACCES)}
+	}
+	return vErrPerm
+}
+
 func vDialErr(c byte) error {
 	switch c {
 	case 'l':
 		return fmt.Errorf("interface not ready: %w", ErrLinkNotReady)
 	case 's':
-		return fmt.Errorf("dial: %w", vErrSys)
+		return fmt.Errorf("dial: %w", vSysErr())
 	case 'p':
-		return fmt.Errorf("dial: %w", vErrPerm)
+		return fmt.Errorf("dial: %w", vPermErr())
 	case 'x':
 		return vErrOther
 	}
@@ -54,9 +80,9 @@ func vTaskErr(c byte) error {
 	case 'L':
 		return fmt.Errorf("failed to run: %w", ErrLinkChange)
 	case 'S':
-		return fmt.Errorf("failed to run: %w", vErrSys)
+		return fmt.Errorf("failed to run: %w", vSysErr())
 	case 'P':
-		return fmt.Errorf("failed to run: %w", vErrPerm)
+		return fmt.Errorf("failed to run: %w", vPermErr())
 	case 'T':
 		return fmt.Errorf("failed to read NDP messages: %w", vErrExh)
 	case 'X':
@@ -253,6 +279,7 @@ func (g vGate) Violation(id, class, what string, detail any) {
 
 func vRunDial(t *testing.T, r0 *vlib.Run, c *dialCase) {
 	r := vGate{r0}
+	vShape = int(vlib.Hash64(c.ID) % 6)
 	var ev []vfake.Event
 	var retErr error
 	returned := false
